@@ -275,15 +275,17 @@ func buildNative(tmp, pkg string, harnessFuncs []string) (string, error) {
 	if err != nil {
 		return "", err
 	}
-	files := hf[pkg]
 	ov := map[string]string{}
-	for _, f := range files {
-		ov[filepath.Join(repoDir, pkg, "zz_verif_"+filepath.Base(f))] = f
-	}
 	tag := strings.ReplaceAll(pkg, "/", "_")
-	pre := filepath.Join(tmp, tag+"_prelude.go")
-	os.WriteFile(pre, []byte(fmt.Sprintf(nativePrelude, pkgNameOf(pkg))), 0644)
-	ov[filepath.Join(repoDir, pkg, "zz_verif_prelude.go")] = pre
+	// every harness directory is overlaid (harnesses of one package use accessors injected into others)
+	for dir, files := range hf {
+		for _, f := range files {
+			ov[filepath.Join(repoDir, dir, "zz_verif_"+filepath.Base(f))] = f
+		}
+		pre := filepath.Join(tmp, tag+"_"+strings.ReplaceAll(dir, "/", "_")+"_prelude.go")
+		os.WriteFile(pre, []byte(fmt.Sprintf(nativePrelude, pkgNameOf(dir))), 0644)
+		ov[filepath.Join(repoDir, dir, "zz_verif_prelude.go")] = pre
+	}
 	var sb strings.Builder
 	sort.Strings(harnessFuncs)
 	for _, h := range harnessFuncs {
